@@ -136,6 +136,9 @@ Compile(S, q) ==
          ELSE IF ~(Cols(S) \subseteq DOMAIN p.avail) THEN CErr("KeyError")
          ELSE LET ord == [i \in DOMAIN S.sort |-> [e |-> SubE(SqlE(S.sort[i].e), p.avail), asc |-> S.sort[i].asc]] IN
               IF \E i \in DOMAIN ord : HasMissingE(ord[i].e) THEN CErr("KeyError")
+              \* SELECT DISTINCT can only be ordered by expressions over its select list (stricter dialects
+              \* reject anything else; SQLite orders by the value of an arbitrary surviving row)
+              ELSE IF S.dedup /\ \E i \in DOMAIN S.sort : ~(ReqE(S.sort[i].e) \subseteq Cols(S)) THEN CErr("InvalidSql")
               ELSE [q |-> "select", cols |-> [c \in Cols(S) |-> p.avail[c]], from |-> p.from, where |-> p.where,
                     distinct |-> S.dedup, order |-> ord, off |-> S.a, lim |-> lim]
 
